@@ -24,7 +24,7 @@
    PARTIAL: mixed worlds (immediate and evaluator-driven bindings together, acting observers, replacement and destruction) are covered by the extracted checker PropCheck.check_c06_after_evalall on every evaluateAll of every generated
    history and by correspondence. *)
 From KDB Require Import Util PropDefs PropProofs.
-From KDB Require PropAbs PropAbsLazy PropCheck PropSim PropSimLazy PropGrowLazy PropGrowMore PropGrowLazyMore PropReg PropMoveLazy PropNotify PropMixedLazy PropLink.
+From KDB Require PropAbs PropAbsLazy PropCheck PropSim PropSimLazy PropGrowLazy PropGrowMore PropGrowLazyMore PropReg PropMoveLazy PropNotify PropMixedLazy PropMixedPass PropLink.
 
 (* a notification reaching a node of an evaluator-driven binding only sets dirty flags *)
 Theorem C06_notification_only_marks :
@@ -357,6 +357,23 @@ Theorem C06_mixed_network_evaluation_is_exact :
       (t, inl (PropAbs.den (PropSim.F1 fn) (PropSim.F2 fn) (PropSim.F3 fn) (PropMixedLazy.envof (run fn rtl fuel ops)) T), lg).
 Proof. exact PropMixedLazy.mixed_reachable_evaluation_exact. Qed.
 Print Assumptions C06_mixed_network_evaluation_is_exact.
+
+(* ONE evaluateAll in a mixed world (coq/PropMixedPass.v): if some rank on the properties puts every binding's inputs below the property it
+   updates (RKI) and the evaluator's registry lists its bindings in increasing rank of their properties (rord) - in a growing network:
+   creation order -, then after the pass every registered bound property equals its expression over the values after the pass, with a
+   clean tree.  (setHelper(q) changes no property ranked below q but q and leaves alone every evaluator-driven tree whose inputs all rank
+   below q: PropMixedPass.set_helper_frame.) *)
+Theorem C06_mixed_one_pass :
+  forall fn rtl rk fuel w e id st w',
+    PropMixedLazy.ML fn w -> PropMixedPass.RKI rk w -> PropReg.REGI w -> lookup (w_bevs w) e = Some id -> id <> 0 ->
+    nth_error (w_evps w) id = Some st -> PropMixedPass.rord rk w (ep_registry st) 0 ->
+    step1 fn rtl fuel w (BevEvalAll e) = (w', None) ->
+    PropMixedLazy.ML fn w' /\ PropLinkBasics.views_eq w w' /\
+    forall rid b, In (rid, b) (ep_registry st) ->
+      exists x T q, get_bind w' b = Some x /\ PropSim.abs_tree (b_root x) = Some T /\ b_target x = Some q /\ PropAbs.clean T /\
+                    PropMixedLazy.envof w' q = PropAbs.den (PropSim.F1 fn) (PropSim.F2 fn) (PropSim.F3 fn) (PropMixedLazy.envof w') T.
+Proof. exact PropMixedPass.mixed_evalall_one_pass. Qed.
+Print Assumptions C06_mixed_one_pass.
 
 (* non-vacuity: 1 = f1(0) immediate, 2 = f2(1) through the evaluator, 3 = f3(2) immediate: after the assignment 1 is up to date at once,
    2 and 3 wait; one evaluateAll brings 2 and, through it, 3 up to date *)
